@@ -10,7 +10,8 @@
 (* Unsound variants (a hint one day / week / year too far) must be refuted: MC_Hints_nv.cfg.     *)
 EXTENDS Hints, TLC
 
-CONSTANTS Lo, Hi, Stride, MaxRules, Late      \* Late = 1: non-vacuity, every hint is pushed one unit too far
+CONSTANTS Lo, Hi, Stride, MaxRules, Late,     \* Late = 1: non-vacuity, every hint is pushed one unit too far
+          Wide                                 \* thorough tier: every day of Dec 20 .. Feb 10 and the end of the year as standing days
 VARIABLES n, rs
 vars == <<n, rs>>
 
@@ -70,9 +71,11 @@ Rule(op, kind, ds, tm) == [op |-> op, kind |-> kind, comments |-> <<>>, year |->
                            weekday |-> ds[4], time |-> tm]
 Expr == [rules |-> rs]
 \* the days the iterator may stand on: around the year end, the holidays, the end of week 2 and of January
-DaysP == {DaysFromCivil(Y0 - 1, 12, 30), DaysFromCivil(Y0 - 1, 12, 31), DaysFromCivil(Y0, 1, 1), DaysFromCivil(Y0, 1, 2),
+DaysNarrow == {DaysFromCivil(Y0 - 1, 12, 30), DaysFromCivil(Y0 - 1, 12, 31), DaysFromCivil(Y0, 1, 1), DaysFromCivil(Y0, 1, 2),
           DaysFromCivil(Y0, 1, 5), DaysFromCivil(Y0, 1, 6), DaysFromCivil(Y0, 1, 7), DaysFromCivil(Y0, 1, 14),
           DaysFromCivil(Y0, 1, 15), DaysFromCivil(Y0, 1, 31), DaysFromCivil(Y0, 2, 1), DaysFromCivil(Y0, 12, 31)}
+DaysP == IF Wide THEN (DaysFromCivil(Y0 - 1, 12, 20)..DaysFromCivil(Y0, 2, 10)) \cup (DaysFromCivil(Y0, 12, 20)..DaysFromCivil(Y0 + 1, 1, 3))
+         ELSE DaysNarrow
 ExprHintSound == \A d0 \in DaysP :
                    LET h == ExprHint(Expr, d0, ECtx)
                    IN h = NONE \/ (h > d0 /\ \A d \in (d0 + 1)..(Min2(h + Late, d0 + 40) - 1) : SkippedOk(Expr, d0, d, ECtx))
@@ -86,6 +89,8 @@ AddRule == /\ Len(rs) < MaxRules
 Next == (MaxRules = 0 /\ Walk) \/ AddRule
 Spec == Init /\ [][Next]_vars
 
+LoWide == 17897     \* 2019-01-01
+HiWide == 23010     \* 2032-12-31 (all 14 calendar types)
 LoDef == 19346      \* 2022-12-20
 HiDef == 20468      \* 2026-01-15
 =============================================================================
